@@ -96,7 +96,13 @@ func ttlProbe(sc Scenario, i int, st *Stack, d *Driver, ob StepObs) []Violation 
 				Signature: sig + ":" + lastTTLCommands(sc, i, k), Replay: map[string]interface{}{"step": i, "key": k, "impl_deadline": it.Deadline, "spec_deadline": sp[1], "now": now}})
 		case ok && sok && chunked:
 			// every chunk entry of the key must carry the same expiry as the key itself
-			for ci := 0; ci < 64; ci++ {
+			// (only the chunks the metadata refers to: a shorter value written over a longer one
+			// leaves the longer one's last chunks behind, unreferenced, with their old expiry)
+			nChunks := 0
+			if len(it.Value) >= 12 {
+				nChunks = int(it.Value[8])<<24 | int(it.Value[9])<<16 | int(it.Value[10])<<8 | int(it.Value[11])
+			}
+			for ci := 0; ci < nChunks && ci < 64; ci++ {
 				ce, cok := record.Lookup(fmt.Sprintf("%s-%d", k, ci))
 				if !cok {
 					break
